@@ -143,6 +143,8 @@ for f in sorted(glob.glob(os.path.join(here, "harness", "engines", "*.py"))):
         doc = src[3:src.index('"""', 3)].strip().splitlines()[0]
     ENG_TEXT[n] = doc
 
+STAGE_FLAGS = ["kernels", "methods", "rangemap", "lookup", "namespace", "eventmap", "regfields", "shadow", "signatures",
+               "busctors", "periphctors", "builderrest", "builder", "ctors"]
 checks = []
 na = []
 served = {}
@@ -153,6 +155,10 @@ for i in range(1, 21):
     if os.path.exists(pd) and os.path.exists(pf):
         d = json.load(open(pd))
         cat, ref, eng, text, extra, tech = T[pid]
+        stages = [k for k in STAGE_FLAGS if d.get(k)]
+        if stages:
+            tech += ("; plus source-to-Gallina translator ties regenerated from /repo and re-proved on every run (stages: "
+                     + ", ".join(stages) + "; DESIGN.md 11.3)")
         for e in d["engines"]:
             served.setdefault(e, []).append(pid)
         checks.append({
